@@ -39,6 +39,7 @@ def oracle_deferred(run):
     returned = {}    # k -> idx
     result = {}      # k -> ("val", r) | ("exc",)
     direct = {}
+    lastread = {}
     final = None
     idx = -1
     for tid, t in events(run):
@@ -102,6 +103,8 @@ def oracle_deferred(run):
             elif t[1] == "ld":
                 if tid in shared:
                     return "load returned holding the shared lock"
+                if k0 == "ret" and len(t) > 2 and int(t[2]) != lastread.get(tid):
+                    return "load returned %s, the value it read under the lock is %s" % (t[2], lastread.get(tid))
         elif k0 == "ucb":
             k = int(t[1])
             if k not in called:
@@ -125,6 +128,18 @@ def oracle_deferred(run):
                 return "thread %d read %d, last written value is %d" % (tid, v, val)
             if tid in running:
                 running[tid][1].append(v)
+            else:
+                # C15: a reader (load / shared handle) sees the register after a prefix of the applied modifications: nobody is
+                # inside a task and the value is the fold of the completed ones (never a value that did not exist)
+                if running:
+                    return "thread %d read the object while task %d is being applied" % (tid, list(running.values())[0][0])
+                x = 0
+                for a in applied:
+                    if called[a]["mode"] != 1:
+                        x = 3 * x + a
+                if v != x:
+                    return "thread %d read %d, the applied tasks %s give %d (a value the object never had)" % (tid, v, applied, x)
+                lastread[tid] = v
         elif k0 == "pwr":
             v = int(t[2])
             if excl != tid or shared or tid not in running:
@@ -252,6 +267,38 @@ def register(PROPS, COMPONENTS):
 
 
 PARTS = {
+    "C15": dict(
+        lean_files=["ConcVerif/Props/C15_deferred.lean"], components=["deferred"],
+        level_text_add="deferred_guarded (Model/Deferred.lean extended conservatively by a ghost log of completed applications, "
+                       "same accepted traces): the value a load() — or a read through a shared handle — obtains under the shared lock is "
+                       "the object's value at that moment, when nobody holds the mutex exclusively and no task function is running, i.e. "
+                       "the value left by the last completed application (never a partially written one); for every cut of an accepted "
+                       "trace around such a read the value is the one after a prefix of the final log that contains every application "
+                       "completed before the earlier cut (e.g. the call) and only applications made before the later one (e.g. the "
+                       "return) — the linearisation point lies inside the call; logs at successive reads are prefix-ordered. The trace "
+                       "oracle checks every reader's value against the fold of the tasks applied so far and load's result against it.",
+        trusted_base=["Proof/DeferredR.lean: stepL = the model's step plus a ghost log (proved to accept exactly the same traces); the "
+                      "functions of the tasks are opaque to the model: the log records the value each one left"],
+        assumptions=[],
+        partial=["deferred_guarded has no whole-object store: its writes are the applications of modify_detach / modify_async tasks "
+                 "(C06); the value returned by load() is the copy made under the lock — that the `ret ld v` result equals the value "
+                 "read is checked on traces (python oracle), the copy itself is client/payload code"]),
+    "C08": dict(
+        lean_files=["ConcVerif/Props/C08_deferred.lean"], components=["deferred"],
+        level_text_add="deferred_guarded shared handles (Model/Deferred.lean): the truth value reported for the handle equals the "
+                       "outcome of the shared acquisition event and is true exactly when the thread holds the mutex shared; at the "
+                       "acquisition point of try_lock_shared / _for / _until only the try / timed event is accepted (never the blocking "
+                       "one) and its failing outcome is enabled in every global state; the drain attempt that precedes every shared "
+                       "acquisition touches the mutex only by an exclusive try-lock with an always-enabled outcome; a non-null handle's "
+                       "owner stays a shared holder (nobody exclusive) under every step of every thread until its own release event, "
+                       "after which it is no holder and no further release is accepted; after a null result nothing is held.",
+        trusted_base=["Model/Deferred.lean: handle moves / unlock() of shared_lock_handle are covered by the lock-family model (same "
+                      "handles.hpp class); the deferred client destroys its handle (one `sul`)"],
+        assumptions=[],
+        partial=["deferred_guarded: 'never blocking beyond the given time' — the try / timed forms never block on the shared mutex, but "
+                 "they first run do_pending_writes: if its try-lock wins they execute the queued task functions and take the queue "
+                 "mutex (blocking, held only across one push or one swap; its holder is always enabled to release). Real time is not "
+                 "modelled"]),
     "C02": dict(
         lean_files=["ConcVerif/Props/C02_deferred.lean"], components=["deferred"],
         trusted_base=["Model/Deferred.lean (deferred_guarded with std::shared_timed_mutex / std::shared_mutex; the plain-mutex "
